@@ -401,7 +401,7 @@ impl<'a> StringParser<'a> {
                         }
                     }
                 }
-                ' ' if self_documenting => {
+                ' ' | '\t' | '\n' | '\x0b' | '\x0c' if self_documenting => {
                     trailing_seq.push(ch);
                 }
                 '\\' => return Err(FStringError::new(UnterminatedString, self.get_pos()).into()),
